@@ -40,6 +40,8 @@ func implParse(input []byte, mode int) (res string, hdr *format.Header, rest []b
 		r = iotest.DataErrReader(r)
 	case 4:
 		r = bufio.NewReaderSize(iotest.HalfReader(r), 16)
+	case 5:
+		r = bufio.NewReaderSize(r, 100) // a caller's own small bufio.Reader: Parse must hand back exactly the unread rest
 	}
 	h, payload, err := format.Parse(r)
 	if err != nil {
@@ -66,9 +68,9 @@ func (c *Ctx) c07Case(kind string, input []byte) {
 	model := c.model.Call("parse", hx(input))
 	c.Compare("format.Parse~Format.parse", map[string]string{"kind": kind, "input": hx(input)}, impl, model)
 	// delivery modes must not matter (payload = exact remainder, bufio input or not)
-	for mode := 1; mode <= 4; mode++ {
-		if mode >= 3 && c.evals%7 != 0 {
-			continue
+	for mode := 1; mode <= 5; mode++ {
+		if mode >= 3 && c.evals%7 != 0 && h == nil {
+			continue // the rarer modes: always for accepted inputs, sampled for rejected ones
 		}
 		impl2, _, _, _ := implParse(input, mode)
 		c.Oracle("parse-delivery-independence", impl2 == impl, "parse-delivery", map[string]interface{}{"input": hx(input), "mode": mode},
@@ -175,6 +177,38 @@ func (c *Ctx) c07Structured() {
 		muts := c.vol(12, 40)
 		for k := 0; k < muts; k++ {
 			c.c07Case("mutation", mutateHeader(c.rng, valid, len(buf.Bytes())))
+		}
+	}
+	// line-ending and intro-line variants of one valid header: each line alone with CR LF, all lines with CR LF,
+	// and spellings of the version line that a lenient reader might let through
+	{
+		h := randHeader(newRand(c.seed + 11))
+		for len(h.Recipients) == 0 {
+			h = randHeader(c.rng)
+		}
+		var hb bytes.Buffer
+		h.Marshal(&hb)
+		lines := bytes.SplitAfter(hb.Bytes(), []byte("\n"))
+		for li := range lines {
+			if len(lines[li]) == 0 {
+				continue
+			}
+			var t []byte
+			for lj, l := range lines {
+				if lj == li {
+					t = append(append(t, l[:len(l)-1]...), '\r', '\n')
+				} else {
+					t = append(t, l...)
+				}
+			}
+			c.c07Case("one-line-crlf", append(t, []byte("rest")...))
+		}
+		c.c07Case("all-lines-crlf", append(bytes.ReplaceAll(hb.Bytes(), []byte("\n"), []byte("\r\n")), []byte("rest")...))
+		body := hb.Bytes()[len(intro):]
+		for _, iv := range []string{"age-encryption.org/v01\n", "age-encryption.org/v+1\n", "age-encryption.org/v1 \n", " age-encryption.org/v1\n", "age-encryption.org/v1\r\n",
+			"age-encryption.org/V1\n", "AGE-ENCRYPTION.ORG/v1\n", "age-encryption.org/v2\n", "age-encryption.org/v1.0\n", "age-encryption.org/v1\n\n", "age-encryption.org/v\n",
+			"age-encryption.org/v1\x00\n", "age-encryption.org/v0001\n", "age-encryption.org/v１\n", "\nage-encryption.org/v1\n", "age-encryption.org/v1\t\n"} {
+			c.c07Case("intro-variant", append(append([]byte(iv), body...), []byte("rest")...))
 		}
 	}
 	// truncations of one header at every position
